@@ -14,6 +14,7 @@ import MW.Lemmas.KvIterW
 import MW.Lemmas.KvSnapshot
 import MW.Lemmas.KvHandlesRefine
 import MW.Lemmas.KvIterRyw
+import MW.Lemmas.LedBytesKV
 namespace MW.Props.C11
 open MW MW.KV MW.Model.KV
 
@@ -485,5 +486,35 @@ example :
       [(true, some [97], some [1]), (true, some [97], some [2]), (false, none, none)] ∧
     b.get tx [97] = some [2] := by
   decide
+/-! ## 8. a bucket as a byte-keyed association list (the interface the ledger's byte store is built on)
+
+  `MW.LedBytes.bucketOf d p`: the entries of bucket `p` of the specification database `d`.  On it the specification's
+  Get / Put / Delete / GetByPrefix ARE `AMap.get / put / erase / scan` (MW.Base.AMap, the maps of the ledger model):
+  with `kv_refines` this makes the ledger's `BStore` (MW.Props.C01.LedBytes) a view of what leveldb.go stores. -/
+
+theorem bucket_get (d : Spec.KV.DB) (p : Path) (k : Bytes) : d.get p k = AMap.get (MW.LedBytes.bucketOf d p) k :=
+  MW.LedBytes.get_bucketOf d p k
+
+/-- Put on an existing bucket with the non-empty key and value the driver insists on -/
+theorem bucket_put (d : Spec.KV.DB) (p : Path) (k v : Bytes) (hb : d.has p = true) (hk : k ≠ []) (hv : v ≠ []) :
+    (d.put false p k v).1 = Obs.ok ∧
+    MW.LedBytes.bucketOf (d.put false p k v).2 p = AMap.put (MW.LedBytes.bucketOf d p) k v ∧
+    (∀ q, q ≠ p → MW.LedBytes.bucketOf (d.put false p k v).2 q = MW.LedBytes.bucketOf d q) ∧
+    (d.put false p k v).2.buckets = d.buckets := MW.LedBytes.put_bucketOf d p k v hb hk hv
+
+theorem bucket_del (d : Spec.KV.DB) (p : Path) (k : Bytes) (hb : d.has p = true) :
+    (d.del false p k).1 = Obs.ok ∧
+    MW.LedBytes.bucketOf (d.del false p k).2 p = AMap.erase (MW.LedBytes.bucketOf d p) k ∧
+    (∀ q, q ≠ p → MW.LedBytes.bucketOf (d.del false p k).2 q = MW.LedBytes.bucketOf d q) ∧
+    (d.del false p k).2.buckets = d.buckets := MW.LedBytes.del_bucketOf d p k hb
+
+/-- GetByPrefix: the same members (the specification sorts them; the code returns Go-map order in a write transaction) -/
+theorem bucket_pfx (d : Spec.KV.DB) (p : Path) (pfx : Bytes) (e : Bytes × Bytes) :
+    e ∈ (d.bucketEntries p).filter (fun e => pfx.isPrefixOf e.1) ↔
+    e ∈ AMap.scan (MW.LedBytes.bucketOf d p) (fun b => pfx.isPrefixOf b) := MW.LedBytes.pfx_bucketOf d p pfx e
+
+-- an existing bucket "c" with one entry: the hypotheses of bucket_put / bucket_del hold
+example : let d : Spec.KV.DB := { buckets := [[[99]]], data := [(([[99]], [1]), [2])] }
+    d.has [[99]] = true ∧ MW.LedBytes.bucketOf d [[99]] = [([1], [2])] := by decide
 
 end MW.Props.C11
